@@ -10,7 +10,7 @@ use super::c03::bound_ms;
 use super::simutil::*;
 use crate::common::*;
 use crate::sim::*;
-use cfdp_core::pdu::{DeliveryCode, FileDataPDU, Operations, PDUPayload};
+use cfdp_core::pdu::{Condition, DeliveryCode, FileDataPDU, Operations, PDUPayload};
 use proptest::prelude::*;
 use serde::{Deserialize, Serialize};
 
@@ -161,7 +161,34 @@ pub fn check_unack(sc: &Scenario, tr: &Trace) -> Result<(), Fail> {
                 }
             }
         }
-        match fin_delivered.first() {
+        // the receiver sends Finished: once it knows that closure was requested (Metadata delivered) and has reached an
+        // outcome of its own (delivery finalised, or a fault handled by cancelling), a Finished PDU goes out - whatever the
+        // outcome is. (An abandoned transaction sends nothing more.)
+        if let Some((t_o, ri)) = r_fin.first() {
+            let meta_before = tr
+                .deliveries
+                .iter()
+                .any(|(t, to, di)| *to == p.to && *t <= *t_o && !tr.dgrams[*di].corrupted && kind_of(&tr.dgrams[*di].pdu) == Kind::Metadata);
+            let abandoned = tr.inds_of(p.to, id).iter().any(|r| matches!(&r.ind, cfdp_core::daemon::Indication::Abandon(_)) && r.t <= *t_o);
+            let sent = tr.emitted(p.to, p.from).iter().any(|d| kind_of(&d.pdu) == Kind::Finished && d.t + 1 >= *t_o);
+            if meta_before && !abandoned && !sent {
+                return Err(fail(
+                    tr,
+                    &format!("closure-no-finished-pdu:{:?}", ri.report.condition),
+                    format!(
+                        "closure requested and known to the receiver: it reported its outcome ({:?}, {:?}) at {t_o} ms but never sent a Finished PDU",
+                        ri.report.condition, ri.delivery_code
+                    ),
+                ));
+            }
+        }
+        // "the sender waits for it (up to its limits)": a Finished PDU that arrives after the sender has declared a limit
+        // fault of its own came too late to be waited for
+        let t_giveup = tr.inds_of(p.from, id).iter().find_map(|r| match &r.ind {
+            cfdp_core::daemon::Indication::Fault(f) if matches!(f.condition, Condition::PositiveLimitReached | Condition::InactivityDetected) => Some(r.t),
+            _ => None,
+        });
+        match fin_delivered.iter().find(|(tf, _)| t_giveup.map(|tg| *tf < tg).unwrap_or(true)) {
             Some((tf, f)) => {
                 // the sender waits for it ...
                 match s_term {
